@@ -602,6 +602,8 @@ _NUM = {
                          '                asm_instructions.append(self.parse_line(line, line_number))\n            line_number += 1\n'),
     "ok_rstrip": ('        lines = file_content.rstrip("\\n").split("\\n")\n        for i, line in enumerate(lines):\n            if not line.strip():\n'
                   '                continue\n            asm_instructions.append(self.parse_line(line, i + start_line + 1))\n'),
+    "ok_comprehension": ('        asm_instructions = [\n            self.parse_line(text, start_line + 1 + index)\n            for index, text in enumerate(file_content.split("\\n"))\n            if text.strip()\n        ]\n'),
+    "bad_comprehension_prefiltered": ('        asm_instructions = [\n            self.parse_line(text, start_line + 1 + index)\n            for index, text in enumerate(t for t in file_content.split("\\n") if t.strip())\n        ]\n'),
     "bad_counter_skips_blank": ('        line_number = start_line\n        for line in file_content.split("\\n"):\n            if line.strip() == "":\n'
                                 '                continue\n            line_number += 1\n'
                                 '            asm_instructions.append(self.parse_line(line, line_number))\n'),
